@@ -123,7 +123,7 @@ def main():
 
     os.makedirs(os.path.dirname(out), exist_ok=True)
     with open(out + '.tmp', 'w', encoding='utf-8') as f:
-        f.write('(* Gen/Extracted.v — GENERATED by tools/extract_consts.py from %s; do not edit. *)\n' % repo)
+        f.write('(* Gen/Extracted.v — GENERATED by tools/extract_consts.py from the Rust sources of the repository under check; do not edit. *)\n')
         f.write('From Coq Require Import List NArith.\nImport ListNotations.\n\n')
         for d in defs:
             f.write(d + '\n')
